@@ -314,4 +314,73 @@ Proof.
         constructor; flds; cbn [pushed written datas elapsed] in *; fin.
 Qed.
 
+Lemma step_inv : forall x a a', AInv a -> astep cf n W P a x = Some a' -> AInv a'.
+Proof.
+  intros [] a a' H Hs.
+  - eapply step_tick; eauto.
+  - eapply step_pause; eauto.
+  - eapply step_resume; eauto.
+  - eapply step_scall; eauto.
+  - eapply step_swrite; eauto.
+  - eapply step_spush; eauto.
+  - eapply step_rcall; eauto.
+  - eapply step_atake; eauto.
+Qed.
+
+Lemma run_inv : forall xs a a', AInv a -> arun cf n W P a xs = Some a' -> AInv a'.
+Proof.
+  induction xs as [|x xs IH]; intros a a' H Hr; cbn [arun] in Hr.
+  - inversion Hr; subst; exact H.
+  - destruct (astep cf n W P a x) as [a1|] eqn:E; [|discriminate]. eapply IH; [|exact Hr]. eapply step_inv; eauto.
+Qed.
+
+Lemma firstn_app_exact : forall (l r : list nat), firstn (length l) (l ++ r) = l.
+Proof. intros l r. rewrite firstn_app, firstn_all, Nat.sub_diag. cbn [firstn]. apply app_nil_r. Qed.
+
+Lemma prefix_of_seq : forall (l1 l2 : list nat) w, l1 ++ l2 = seq 0 w -> l1 = seq 0 (length l1).
+Proof.
+  intros l1 l2 w E.
+  assert (Hl : length l1 <= w).
+  { apply (f_equal (@length nat)) in E. rewrite app_length, seq_length in E. lia. }
+  replace w with (length l1 + (w - length l1)) in E by lia. rewrite seq_app in E.
+  apply (f_equal (firstn (length l1))) in E. rewrite firstn_app_exact in E.
+  rewrite E at 1. replace (length l1) with (length (seq 0 (length l1))) at 1 by apply seq_length.
+  apply firstn_app_exact.
+Qed.
+
+(* THE COMPOSITION THEOREM (abstract machine).  For every schedule of the goroutines' moves, ticks, pause
+   requests and resumes in which every episode of pausing lasts at most P ticks, P + one sleep < Timeout:
+   nobody reports an error (in particular no timeout on either side), the peer's reader has been handed
+   exactly the frames 0, 1, 2, ... in order (what it gets without any pause), and whenever nothing can
+   move and no pause episode is open the transfer is complete: all n frames delivered and acknowledged. *)
+Theorem short_pause_completes_abs : forall xs a, arun cf n W P (ainit n) xs = Some a ->
+  xBad a = false /\ xDeliv a = seq 0 (length (xDeliv a)) /\ length (xDeliv a) <= n /\ (x_quiescent n W a = true -> xEp a = EpNone -> xDeliv a = seq 0 n /\ xAcked a = n).
+Proof.
+  intros xs a Hr. pose proof (run_inv xs _ _ inv_init Hr) as H.
+  pose proof (deliv_len a H) as DL. pose proof (written_le a H) as WL.
+  split; [exact (i_bad a H)|]. split; [exact (prefix_of_seq _ _ _ (i_c3 a H))|]. split; [lia|].
+  intros Hq He.
+  destruct (quiescent_props a Hq) as (Q1 & Q2 & Q3).
+  pose proof (i_c1 a H) as C1. pose proof (i_c2 a H) as C2. pose proof (i_c4 a H) as C4.
+  pose proof (i_p2s a H) as P2s. pose proof (i_p2a a H) as P2a. rewrite He in P2s, P2a.
+  assert (Hn : length (xDeliv a) = n).
+  { destruct (Nat.ltb_spec (length (xDeliv a)) n) as [Hl|Hl]; [|lia]. exfalso.
+    destruct (xR a) as [|t] eqn:ER; [specialize (Q2 eq_refl); lia|].
+    assert (Hp : pend a = false).
+    { unfold pend. rewrite ER. destruct (xS a) as [k|k [|j|]|k|]; try contradiction; auto.
+      destruct (xA a) eqn:EA; [specialize (Q3 eq_refl)|..]; rewrite (proj2 (Nat.ltb_ge _ _)) by lia; auto. lia. }
+    assert (Hlv : x_live n a = true) by (apply Nat.ltb_lt; exact Hl).
+    destruct (sleeper_exists a t H Hlv ER Hp) as [(k & j & E)|(j & E)].
+    - destruct (P2s k j E) as (_ & []).
+    - destruct (P2a j E) as (_ & []). }
+  split.
+  - rewrite (prefix_of_seq _ _ _ (i_c3 a H)), Hn. reflexivity.
+  - pose proof (i_s1 a H) as S1. pose proof (i_s2 a H) as S2.
+    destruct (xA a) as [|j|] eqn:EA.
+    + specialize (Q3 eq_refl).
+      destruct (xS a) as [k|k [|j|]|k|] eqn:ES; cbn [pushed written] in *; try contradiction; try lia.
+    + destruct (P2a j eq_refl) as (_ & []).
+    + specialize (C4 eq_refl). destruct (xS a) as [k|k p|k|]; cbn [pushed written] in *; lia.
+Qed.
+
 End AbstractProofs.
